@@ -381,9 +381,12 @@ func c09SlotClearedBeforeReceive(c *Ctx) {
 // stream embedding BaseStream (NewStream / newClientStream): each returned object is
 //
 //	(a) freshly allocated, or
-//	(b) a slot of the request's buffer context whose embedded stream is overwritten by a whole-struct store on every path
-//	    (`s.stream = stream{...}`), or
-//	(c) such a slot on a path where it was tested unused (a pointer field of the slot compared with nil).
+//	(c) a slot of the request's buffer context on a path where it was tested unused (a pointer field of the slot
+//	    compared with nil).
+//
+// Until repair 109 a third form was accepted: (b) a slot whose embedded stream is overwritten by a whole-struct store. That
+// keeps the state of the old try out, but not its owner: the serve goroutine of the old try's connection may still hold
+// the slot and resets the new try when it wakes up late (S86). So (b) is gone.
 //
 // Otherwise the stream of a retry is born destroyed: its DestroyStream/ResetStream are no-ops, the connection is neither
 // returned to the pool nor closed, and the breaker slot and gauges of every retried request leak.
@@ -428,19 +431,9 @@ func freshStreamPerTry(c *Ctx, rule string) {
 				return true
 			case *ssa.FieldAddr:
 				// a slot of the per-context buffers
-				// (b) whole-struct store into an embedded struct field of the slot that dominates the return
-				for _, r := range refs(x) {
-					if fa, ok := r.(*ssa.FieldAddr); ok {
-						if _, isStruct := derefType(fa.Type()).Underlying().(*types.Struct); !isStruct {
-							continue
-						}
-						for _, rr := range refs(fa) {
-							if st, ok := rr.(*ssa.Store); ok && st.Addr == ssa.Value(fa) && unconditionalIn(st) {
-								return true
-							}
-						}
-					}
-				}
+				// (A whole-struct store into the slot used to be accepted here as "re-initialised". It is not enough: the serve
+				// goroutine of the connection of the try that ended can still hold the slot and resets whatever is in it when
+				// it wakes up (S86) - the slot must be unused, not merely rewritten.)
 				// (c) tested unused on the way here
 				for _, g := range gs {
 					bo, ok := g.Cond.(*ssa.BinOp)
@@ -471,7 +464,7 @@ func freshStreamPerTry(c *Ctx, rule string) {
 			n++
 			why = ""
 			ok := fresh(rs.val, guardsAt(rs.at.Block()), map[ssa.Value]bool{})
-			c.Check(rule, fmt.Sprintf("%s:fresh-stream-per-try#%d", fk, i+1), nearestPos(rs.at), ok, "the stream handed out is new, re-initialised as a whole, or a slot tested unused", "the client stream handed out for a new try can carry the state of the try that ended ("+why+"): a retry runs on the same request context, its stream is born destroyed, DestroyStream/ResetStream do nothing, the connection is neither pooled nor closed and the requests-breaker slot and active gauges of the retried request are never given back")
+			c.Check(rule, fmt.Sprintf("%s:fresh-stream-per-try#%d", fk, i+1), nearestPos(rs.at), ok, "the stream handed out is new, or a slot tested unused", "the client stream handed out for a new try can be the object of the try that ended ("+why+"): a retry runs on the same request context; with the old state in it the stream is born destroyed (DestroyStream/ResetStream do nothing, the breaker slot and gauges of the retried request leak), and even rewritten it is still held by the serve goroutine of the old connection, which resets the new try when it wakes up late")
 		}
 	}
 	if n < 1 {
